@@ -441,6 +441,8 @@ def _getput_line_comment(
     if is_block := (ast_cls in ASTS_LEAF_BLOCK):
         if field is None:
             field = 'body'
+        elif field == 'orelse' and (orelse := ast.orelse) and (orelse0 := orelse[0].f).is_elif():  # the `elif` header is the header of the If in orelse, which also owns the body that may follow on its line
+            return orelse0._getput_line_comment(comment, 'body', full)
 
         _, _, end_ln, end_col = self._loc_block_header_end(field)
 
